@@ -29,7 +29,25 @@ func c04Open(key, pkt []byte) string {
 	return envShowMsg(envOfEncrypted(e))
 }
 
+// distribution of result kinds per operation, reported in the evidence file
+var c04Kinds = map[string]int{}
+var c04G *G
+
+func c04Kind(out string) string {
+	out = strings.TrimPrefix(out, "enc ")
+	if i := strings.IndexAny(out, " ("); i >= 0 {
+		out = out[:i]
+	}
+	return out
+}
+
 func c04Exec(op []string) string {
+	out := c04Exec1(op)
+	c04Kinds[op[0]+" "+c04Kind(out)]++
+	return out
+}
+
+func c04Exec1(op []string) string {
 	switch op[0] {
 	case "c04.open", "c04.openorig":
 		// (c04.openorig: the same real call; the Lean side answers with the model of the code as found,
@@ -233,7 +251,7 @@ func c04Gen(g *G) {
 				c04Emit(g, b.keyTok, c04Flip(b.pkt, bit), "refuse", 60, "bitflip", "bitflip-ciphertext")
 			}
 		} else {
-			for i := 0; i < g.N(96, 1500); i++ {
+			for i := 0; i < g.N(256, 1500); i++ {
 				bit := 24*8 + r.Intn((n-24)*8)
 				if i < 32 { // the first two blocks hold the inner header: salt .. length
 					bit = 24*8 + r.Intn(32*8)
@@ -301,9 +319,23 @@ func c04Gen(g *G) {
 				c04Emit(g, b.keyTok, envSealRaw(8, b.key, plain, span), exp, 10, "reseal", fmt.Sprintf("reseal-valid=%v", exp != "refuse"))
 			}
 		}
+		// (5b) holding the key: the honest plaintext encrypted under the key/IV of a msg_key that differs
+		//      from the true one in one bit (every byte of the msg_key is compared, not a prefix)
+		{
+			plain := append(envPlain(b.m, uint32(bl)), b.pkt[:(16-(32+bl)%16)%16]...)
+			trueMk := envSha1(plain[:32+bl])[4:20]
+			for pos := 0; pos < 16; pos++ {
+				for _, bit := range []byte{1, 0x80} {
+					mk := append([]byte{}, trueMk...)
+					mk[pos] ^= bit
+					c04Emit(g, b.keyTok, envSealWithMsgKey(8, b.key, plain, mk), "refuse", 16, "reseal", "reseal-msgkey-bit")
+				}
+			}
+			c04Emit(g, b.keyTok, envSealWithMsgKey(8, b.key, plain, trueMk), okExp, 4, "reseal", "reseal-msgkey-true")
+		}
 		// (6) block-aligned garbage under the right key id
 		keyID := envSha1(b.key)[12:20]
-		for i := 0; i < g.N(160, 6000); i++ {
+		for i := 0; i < g.N(500, 25000); i++ {
 			blocks := 1 + r.Intn(6)
 			if i%8 == 0 {
 				blocks = 0
@@ -318,12 +350,22 @@ func c04Gen(g *G) {
 		}
 	}
 	// arbitrary bytes, any length, under any key
-	for i := 0; i < g.N(100, 3000); i++ {
+	for i := 0; i < g.N(400, 10000); i++ {
 		c04Emit(g, fmt.Sprintf("x256:%d", r.U64()>>1), r.Bytes(r.Intn(120)), "any", 5, "random-bytes")
 	}
 	// 4-byte packets are transport error codes; zero key id goes to the unencrypted path
 	for _, p := range []string{"6cfeffff", "00000000", "ffffffff", "0000000000000000", "000000000000000001", "00000000000000000500000000000000", "0000000000000000050000000000000000000000", "000000000000000005000000000000000400000001020304"} {
 		g.Emit(fmt.Sprintf("c04.route x256:7 %s any", p), "route", "route-unenc")
+	}
+
+	// a key id is non-zero as soon as any one of its 8 bytes is: such packets belong to the encrypted path
+	for pos := 0; pos < 8; pos++ {
+		for _, v := range []byte{1, 0x80} {
+			pkt := make([]byte, 8, 72)
+			pkt[pos] = v
+			pkt = append(pkt, r.Bytes(16+16*(1+r.Intn(3)))...)
+			g.Emit(fmt.Sprintf("c04.route x256:7 %s refuse", hexD(pkt)), "route", "route-sparse-id")
+		}
 	}
 
 	// (7) unencrypted packets: inconsistent length, wrong parity, truncation
@@ -376,5 +418,13 @@ func c04SpecUnenc(mid uint64, body []byte) []byte {
 
 func init() {
 	register(&Prop{Name: "c04", Gen: c04Gen, Exec: c04Exec, Judge: c04Judge,
-		Setup: func(g *G) { envListen() }, Teardown: envUnlisten})
+		Setup: func(g *G) { c04G = g; envListen() },
+		Teardown: func() {
+			envUnlisten()
+			kinds := map[string]interface{}{}
+			for k, v := range c04Kinds {
+				kinds[k] = v
+			}
+			c04G.Extra["result_kinds"] = kinds
+		}})
 }
